@@ -26,11 +26,13 @@ MAPPINGS = {
 TEMPLATES = {"t-empty": {}, "t-len": {"length": "m"}, "t-depth": {"depth": "m"}}
 
 
-def make_ops(thorough):
+def make_ops(thorough, reentrant=False):
     ids = ["a", ""] + (["c"] if thorough else [])  # (the empty string is a legal id)
     ops = []
     for i in ids:
         for k in MAPPINGS:
+            if reentrant and k in ("empty", "len"):
+                continue
             ops.append(("add", i, k))
     ops.append(("add", "system 1", "none"))
     for i in ids + ["system 1"]:
@@ -47,6 +49,16 @@ def make_ops(thorough):
         if thorough:
             ops.append(("sdu", i, "length", "m"))
             ops.append(("rmc", i, "depth"))
+    if reentrant:
+        # the pass with a re-entrant client: the structural operations above, every getter at once, and a client
+        # whose on_current listener calls back into the library, installed once per history:
+        #   enforce: sets its preferred length unit on whatever system becomes current
+        #   pin:     whenever system '' becomes current, selects system 'a' instead (if registered)
+        ops = [o for o in ops if o != ("tmpl", "t-empty")]
+        ops.append(("queries",))
+        ops.append(("arm", "enforce"))
+        ops.append(("arm", "pin"))
+        return ops
     ops.append(("newid",))
     ops.append(("conv", "length", "m", 1500.0))
     ops.append(("conv", "depth", "km", 2.0))
@@ -89,11 +101,26 @@ class Sys:
         self.log = []
         self.shared = {"length": "cm", "depth": "m"}
         self.broken = False
+        self.armed = None  # behaviour of the on_current listener beyond logging (see make_ops)
+        self.model.client = self._model_client
         self.mgr.on_current.Register(self._on_current)
         self.mgr.on_unit_changed.Register(self._on_unit)
 
     def _on_current(self, system):
         self.log.append(("current", system.GetId()))
+        if self.armed == "enforce" and system.GetId() is not None:
+            system.SetDefaultUnit("length", "mm")
+        elif self.armed == "pin" and system.GetId() == "":
+            target = self.mgr.GetUnitSystems().get("a")
+            if target is not None:
+                self.mgr.SetCurrent(target)
+
+    def _model_client(self, sid):
+        """The same client, acting on the reference model."""
+        if self.armed == "enforce" and sid is not None:
+            self.model.set_default_unit(sid, "length", "mm")
+        elif self.armed == "pin" and sid == "" and "a" in self.model.systems:
+            self.model.set_current("a")
 
     def _on_unit(self, category, unit):
         self.log.append(("unit", category, unit))
@@ -121,7 +148,7 @@ def fingerprint(s):
     t = mgr.GetUnitSystemTemplate()
     tmpl = None if t is None else tuple(sorted(t.GetUnitsMapping().items()))
     cur = mgr.GetCurrent()
-    return (tuple(rows), tmpl, cur.GetId(), tuple(sorted(s.shared.items())))
+    return (tuple(rows), tmpl, cur.GetId(), tuple(sorted(s.shared.items())), s.armed)
 
 
 def canon(s):
@@ -148,6 +175,8 @@ def apply(s, op, part, hist):
         return False
     if kind in ("sdu", "rmc") and op[1] not in registered:
         return False
+    if kind == "arm" and s.armed is not None:
+        return False
     pre = fingerprint(s) if part is not None else None
     n_log, n_mlog = len(s.log), len(model.log)
     exc = None
@@ -169,6 +198,8 @@ def apply(s, op, part, hist):
             registered[op[1]].SetDefaultUnit(op[2], op[3])
         elif kind == "rmc":
             registered[op[1]].RemoveCategory(op[2])
+        elif kind == "arm":
+            s.armed = op[1]
         elif kind == "newid":
             result = mgr.GetNewId()
         elif kind == "conv":
@@ -324,7 +355,7 @@ def fmt(op):
     return "%s(%s)" % (op[0], ", ".join(repr(a) for a in op[1:]))
 
 
-OPS_BY_TIER = {False: make_ops(False), True: make_ops(True)}
+OPS_BY_TIER = {False: make_ops(False), True: make_ops(True), "re": make_ops(False, True)}
 _TIER = {"thorough": False}
 
 
@@ -337,8 +368,9 @@ def replay(hist_ops):
     part = Part()
     with worlds.world("posc"):
         s = make()
-        _TIER["thorough"] = True
-        ops = OPS_BY_TIER[True]
+        key = "re" if any(tuple(o)[0] == "arm" for o in hist_ops) else True
+        _TIER["thorough"] = key
+        ops = OPS_BY_TIER[key]
         idx = []
         for op in hist_ops:
             op = tuple(op)
@@ -351,7 +383,7 @@ def replay(hist_ops):
 
 
 def run(ctx):
-    passes = [(False, 14)]
+    passes = [(False, 14), ("re", 14 if ctx.thorough else 7)]
     if ctx.thorough:
         passes.append((True, 6))  # three ids + more unit choices: too large for a fixpoint, depth bounded
     res = None
@@ -361,7 +393,7 @@ def run(ctx):
             _TIER["thorough"] = wide
             ops = OPS_BY_TIER[wide]
             before = ctx.part.counters.get("transitions", 0)
-            r = explorer.bfs(ctx, make, apply, ops, canon, max_depth=depth, lookahead=4 if not wide else 3)
+            r = explorer.bfs(ctx, make, apply, ops, canon, max_depth=depth, lookahead=3 if wide is True else 4)
             r["transitions"] = ctx.part.counters.get("transitions", 0) - before
             r["operations"] = len(ops)
             extra.append({k: r[k] for k in ("states", "transitions", "fixpoint", "depth", "open_frontier", "operations")})
